@@ -52,7 +52,7 @@ func lookupFlow[T any](urlTree *URLTree[T], url string) lookupFlowNodeResult[T] 
 
 	// the node reached is the URL's own node only if every part of the URL was walked: when the walk stops at the
 	// last part (no child for it) the node reached belongs to a URL that is one segment shorter
-	if walkedParts == len(splitURL) && currentNode.hasValue() && currentNode.WildcardChild == nil {
+	if walkedParts == len(splitURL) && currentNode.hasValue() {
 		flows = append(flows, *currentNode.Value)
 	} else if index == lookUpLength && part.IsPartOfHost &&
 		currentNode.WildcardChild != nil && currentNode.WildcardChild.hasValue() {
